@@ -4,7 +4,7 @@
    chains of diffs, and the failure cases: a diff fails exactly when a line is
    malformed / rejected or some key would lose more than it holds, and then nothing
    is written. *)
-From DnsV Require Import Model.Diff Spec.MapOfLists Proofs.MultiValue Proofs.MapOfLists Proofs.BytesOrder Proofs.Batch Proofs.CompilePipe.
+From DnsV Require Import Model.Diff Spec.MapOfLists Proofs.MultiValue Proofs.MapOfLists Proofs.KeyOrder Proofs.Batch Proofs.CompilePipe.
 From Coq Require Import Permutation Sorted ZifyN ZifyNat ZifyBool.
 Open Scope N_scope.
 
